@@ -12,6 +12,7 @@ CONSTANTS
  MaxEvents = 1
  MaxFaults = 0
  MaxTicks = 0
+ MaxBreaks = 0
  Export = FALSE
  RunToBlock = FALSE
  Mut = "none"
